@@ -127,7 +127,7 @@ func (g *c07Pick) tail(name string) string {
 
 // plate: licence plate / VIN (STRING, GBK).
 func (g *c07Pick) plate(name string) string {
-	m := []string{"", "a", "京A12345", "LSVAU2180N2183294", "测", c07Pattern[:200]}
+	m := []string{"", "a", "京A12345", "LSVAU2180N2183294", "测", c07Pattern[:200], "€A12345"}
 	return m[g.next(name, 4, len(m), func(i int) bool { return i >= 2 })]
 }
 
@@ -1068,7 +1068,7 @@ func c07RunHelpers(ctx *vc.Ctx, rep *vc.Report, idx *int64) {
 			try(c07HCase{Helper: "gbk", Hex: hx2([]byte{byte(l), byte(t)})}, true)
 		}
 	}
-	for _, s := range []string{"测", "试", "京", "中", "文", "粤", "上", "传", "京A12345", "测试/上传"} {
+	for _, s := range []string{"测", "试", "京", "中", "文", "粤", "上", "传", "京A12345", "测试/上传", "€", "a€b", "€A12345"} {
 		try(c07HCase{Helper: "gbk-text", Text: s}, true)
 	}
 	for size := 0; size <= 40; size++ {
